@@ -9,8 +9,9 @@ from vk.specs import chain as S
 from vk.specs import universe as U
 from vk.specs import dyn as Dn
 
-LEVEL = "exploration"
-TECHNIQUE = ("runtime contracts with theorem-derived error bounds (Taylor / stage-polynomial remainder, exactness of projector splitting and VMF at full bond "
+LEVEL = "other"
+TECHNIQUE = ("Engine S (kernel-stub mode): one step of every propagation-and-compression scheme equals the scheme's stage polynomial (resp. the explicit RK recursion "
+             "for H(t)) applied to the state, as polynomials in the tensor entries; runtime contracts with theorem-derived error bounds (Taylor / stage-polynomial remainder, exactness of projector splitting and VMF at full bond "
              "dimension, order of CMF) against scipy expm of the dense Hamiltonian; solver-, split- and adaptivity-independence; norm/energy conservation of "
              "TDVP-PS at any bond dimension; bond limits (bounded stand-in; convergence claims are outside any deductive verifier here)")
 
@@ -430,6 +431,8 @@ def check(run):
             for method in ("prop_and_compress_tdrk4", "prop_and_compress_tdrk"):
                 cases.append(("timedep", name, n, method, s, run.tier))
     run_cases(run, worker, cases)
+    from props import C09_sym
+    C09_sym.prove(run)
     run.rule = ("models {spin+qn, electron-phonon, spin} with dense reference (dim <= 72/200) x 8 schemes x local solvers {krylov, RK45} x |H|dt in {0.1, 0.3, 1.0}; "
                 "ten RK tableaux rotated over seeds; split U(t) vs U(t/2)U(t/2); adaptive vs exact; TDVP-PS at bond limits 1,2,3 over 3 steps (norm, energy, limit); "
                 "random histories of 5 scheme switches; density-operator form; time-dependent H(t) for the RK schemes; distinct = (model, size, scheme, solver, |H|dt, clause)")
